@@ -28,6 +28,34 @@ import genreg  # noqa: E402
 import smtsearch  # noqa: E402
 
 
+def changed_anchor_files(prop):
+    """anchored source files of the property (properties.jsonl) whose working-tree content differs from the pinned
+    content hash (tools/srcpins.json, taken from /repo HEAD by tools/mkpins.py).  Used only to DEEPEN the search: a
+    changed file never raises an alarm by itself."""
+    repo = os.environ.get("VERIF_REPO", "/repo")
+    try:
+        with open(os.path.join(VERIF, "tools", "srcpins.json")) as f:
+            pins = json.load(f)
+        files = []
+        with open(os.path.join(VERIF, "properties.jsonl")) as f:
+            for l in f:
+                d = json.loads(l)
+                if d["id"] == prop:
+                    files = d.get("anchors", {}).get("files", [])
+        out = []
+        for fn in files:
+            try:
+                with open(os.path.join(repo, fn), "rb") as g:
+                    h = hashlib.sha256(g.read()).hexdigest()
+            except OSError:
+                h = None
+            if fn in pins and pins[fn] != h:
+                out.append(fn)
+        return out
+    except Exception:
+        return []
+
+
 def load_props(prop):
     with open(os.path.join(VERIF, "tools", "props", prop + ".json")) as f:
         return json.load(f)
@@ -284,6 +312,12 @@ def run_check(prop, tier, seed):
     ops_path = os.path.join(WORK, f"{prop}.{tier}.ops")
     # when a proof obligation broke, search at thorough size regardless of the tier (DESIGN §5.3)
     search_tier = "thorough" if (broken or failed_translations) else tier
+    # change-triggered deepening: anchored source text differs from the pinned tree -> run the thorough-size streams
+    changed_files = changed_anchor_files(prop)
+    if changed_files and search_tier != "thorough":
+        search_tier = "thorough"
+        notes.append("anchored source files differ from the pinned tree (" + ", ".join(changed_files) +
+                     "): correspondence and oracle streams run at thorough size")
     if harness_ok and driver_ok:
         lines = []
         cdir = os.path.join(VERIF, "corpus", prop)
